@@ -52,6 +52,9 @@ type c03Spec struct {
 	Batch     bool    `json:"batch,omitempty"`   // raw-init: 2025-03-26 and all operations travel as one JSON-RPC batch array
 	Version   string  `json:"version,omitempty"` // requested protocol version ("" = the client's default, 2026-07-28 on persistent connections)
 	OAuth     bool    `json:"oauth,omitempty"`   // streamable client transport configured with an OAuthHandler (the server requires nothing)
+	// Bystanders: the same Client is also connected to this many other servers, so that Client.AddRoots notifies
+	// several sessions; it must still have handed the notification to this session's transport when it returns.
+	Bystanders int `json:"bystanders,omitempty"`
 }
 
 func genC03(r *vh.Rand) c03Spec {
@@ -91,6 +94,11 @@ func genC03(r *vh.Rand) c03Spec {
 			op.CancelMs = r.Range(1, 4)
 		}
 		s.Ops = append(s.Ops, op)
+	}
+	for _, op := range s.Ops {
+		if op.Kind == "roots" && s.Bystanders == 0 && r.Bool() {
+			s.Bystanders = r.Range(1, 3)
+		}
 	}
 	return s
 }
@@ -311,6 +319,19 @@ func runC03(c *vh.Case, spec c03Spec) {
 	}
 	cs, ss := pair.CS, pair.SS
 	c.Seen("negotiated", spec.Transport+"/"+cs.InitializeResult().ProtocolVersion)
+	for i := 0; i < spec.Bystanders; i++ {
+		other := mcp.NewServer(&mcp.Implementation{Name: fmt.Sprintf("bystander-%d", i), Version: "1"}, nil)
+		t1, t2 := mcp.NewInMemoryTransports()
+		oss, err1 := other.Connect(ctx, t1, nil)
+		ocs, err2 := client.Connect(ctx, t2, &mcp.ClientSessionOptions{ProtocolVersion: "2025-06-18"})
+		if err1 != nil || err2 != nil {
+			c.Inconclusive("bystander connect: %v %v", err1, err2)
+			return
+		}
+		defer oss.Close()
+		defer ocs.Close()
+		c.Count("bystander_sessions", 1)
+	}
 	synctestWait()
 	var calls sync.WaitGroup
 	for _, op := range spec.Ops {
